@@ -271,6 +271,11 @@ func (c *Check) checkOwnership(rule string) {
 						okf = true
 					}
 				}
+				// the goroutine's own wrapper closure (defers around the call of
+				// the known function) belongs to that goroutine
+				if w := p.rootWrapper[ra.root]; w != nil && ra.a.Instr.Parent() == w {
+					okf = true
+				}
 			}
 			if !okf {
 				bad = true
@@ -557,10 +562,12 @@ func (c *Check) capturedVarDiscipline(rule string) {
 			if i < len(s.Target.FreeVars) {
 				name = s.Target.FreeVars[i].Name()
 			}
+			// (a path that re-executes the allocation first writes a new cell:
+			// `v := v` inside the loop body makes one cell per iteration)
 			hit := pathSearch(s.In, s.Instr, func(x ssa.Instruction) bool {
 				st, isS := x.(*ssa.Store)
 				return isS && st.Addr == ssa.Value(al)
-			}, nil)
+			}, func(x ssa.Instruction) bool { return x == ssa.Instruction(al) })
 			detail := "no store to the captured variable is reachable in the spawner after the go statement"
 			if hit != nil {
 				detail = "the spawner stores to the captured variable at " + p.InstrPos(hit) + " after the go statement (with the module's pre-1.22 loop variable semantics every goroutine then sees the last value)"
